@@ -1,9 +1,13 @@
 """C17 — semi-singletons: per class, instances correspond one-to-one to argument keys."""
+import json
+
 from ..engine import Leg, Prop
 from .. import common as C
 
 ARGS = [((), {}), ((1,), {}), ((2,), {}), ((-1,), {}), ((-2,), {}), ((0,), {}), ((2 ** 61 - 1,), {}),
-        ((1, 2), {}), ((1,), {"a": 1, "b": 2}), ((1,), {"b": 2, "a": 1}), (("x",), {}), (((1, 2),), {}), ((), {"a": 1}), ((), {"a": 2})]
+        ((1, 2), {}), ((1,), {"a": 1, "b": 2}), ((1,), {"b": 2, "a": 1}), (("x",), {}), (((1, 2),), {}), ((), {"a": 1}), ((), {"a": 2}),
+        # keyword values that are == across types but have different JSON texts: distinct keys under the default key function
+        ((), {"a": True}), ((), {"a": 1.0})]
 CUSTOM = {"first": lambda args, kwargs: args[0] if args else None,
           "nargs": lambda args, kwargs: len(args) + len(kwargs)}
 
@@ -16,7 +20,8 @@ def intended_key(meta_custom, ai):
         val = CUSTOM[meta_custom](a, k)
         vals = [CUSTOM[meta_custom](*ARGS[j]) for j in range(len(ARGS))]
         return next(j for j, v in enumerate(vals) if v == val and type(v) == type(val))
-    return next(j for j, (a2, k2) in enumerate(ARGS) if a2 == a and k2 == k)
+    # the default key: the positional tuple (compared by ==) and the JSON text of the keyword dict with sorted keys
+    return next(j for j, (a2, k2) in enumerate(ARGS) if a2 == a and json.dumps(k2, sort_keys=True) == json.dumps(k, sort_keys=True))
 
 
 class InitFails(Exception):
@@ -63,7 +68,8 @@ class SemiHistory(Leg):
     case_type = "list sop * list sobs"
     rule = ("lock-step histories (4-22 calls) of construction (1 in 7 with an __init__ that raises) / add_mapping / drop / check / get_all / clear over 2-4 classes: own "
             "metaclass each, a metaclass object shared by two classes, subclasses of a semi-singleton class, custom hash functions; "
-            "argument pool with distinct values of equal hash (-1 / -2, 0 / 2**61-1), keyword order permutations, nested tuples; "
+            "argument pool with distinct values of equal hash (-1 / -2, 0 / 2**61-1), keyword order permutations, nested tuples, keyword "
+            "values equal across types (1 / True / 1.0: distinct keys by their JSON text); "
             "keys are interned by the intended equality, so a key function that conflates or splits them shows as a disagreement; "
             "non-trivial = two classes share a metaclass object or are parent/child and both are constructed with the same key")
     quick_n = 500
@@ -82,6 +88,8 @@ class SemiHistory(Leg):
             ops = []
             ninst = 0
             few = rng.sample(range(len(ARGS)), 4)
+            if rng.random() < 0.25:
+                few = [12, 14, 15, rng.randrange(len(ARGS))]       # a=1 / a=True / a=1.0 as keyword values
             for _ in range(rng.randint(4, 22)):
                 r = rng.random()
                 ci = rng.randrange(len(classes))
@@ -155,7 +163,8 @@ class SemiHistory(Leg):
     @staticmethod
     def _ai(a, k):
         for j, (a2, k2) in enumerate(ARGS):
-            if a2 == a and k2 == k and list(k2) == list(k) and [type(x) for x in a2] == [type(x) for x in a]:
+            if a2 == a and k2 == k and list(k2) == list(k) and [type(x) for x in a2] == [type(x) for x in a] \
+                    and [type(x) for x in k2.values()] == [type(x) for x in k.values()]:
                 return j
         return -1
 
@@ -321,7 +330,8 @@ class SemiHistory(Leg):
 class C17(Prop):
     pid = "C17"
     legs = [SemiHistory()]
-    assumptions = ["argument values stay within ints, strings, tuples and str-keyed dicts of those (Python's cross-type equality "
-                   "1 == True == 1.0 and json.dumps of nested keyword values are outside the modelled value space)",
-                   "keys are interned by the harness under the intended equality (equal positional values, equal keyword dicts; or "
-                   "the custom hash function's value)"]
+    assumptions = ["argument values stay within ints, bools, floats, strings, tuples and str-keyed dicts of those (POSITIONAL values "
+                   "equal across types, 1 == True == 1.0, and json.dumps of nested keyword values are outside the modelled value "
+                   "space; keyword values equal across types are inside it: their JSON texts differ)",
+                   "keys are interned by the harness under the intended equality (equal positional values and equal JSON text of the "
+                   "keyword dict with sorted keys; or the custom hash function's value)"]
